@@ -546,6 +546,14 @@ theorem arrive_badRequest {env : Env} {s : State} {r : Request}
     · rw [h] at h2; cases h2
   · rfl
 
+/-! ## well-formed clusters -/
+
+/-- the endpoint map of a `ClusterInfo` is in C03's simulation with a history whose last Sync wrote the cluster's
+    configuration (server list and subsets) -/
+def ClusterWF (cl : Cluster) : Prop :=
+  ∃ a : KG.Spec.Endpoints.Abs, KG.Lemmas.Endpoints.Sim cl.ep a ∧ a.servers = cl.cfg.servers ∧
+    a.policies = cl.cfg.policies.map (·.upstreamSubset)
+
 /-! ## the specification's view of the stages agrees with the model's (what the judge theorem needs) -/
 
 section Judge
@@ -617,8 +625,9 @@ def impClass : Model.Forward.Imp → Nat
   | .refused => 1
   | _ => 2
 
-theorem imp_match {α : Type} {a b : Model.Forward.Imp} (h : impClass a = impClass b) (X Y Z : α) :
+theorem imp_match {α : Type} (X Y Z : α) : ∀ a b : Model.Forward.Imp, impClass a = impClass b →
     (match a with | .malformed => X | .refused => Y | _ => Z) = (match b with | .malformed => X | .refused => Y | _ => Z) := by
+  intro a b h
   cases a <;> cases b <;> simp [impClass] at h <;> rfl
 
 /-- C04's table looks at a flag only when every earlier stage passed -/
@@ -634,35 +643,37 @@ theorem table_congr (a b : Model.Forward.Scenario)
   unfold KG.Spec.Forward.table
   rw [← h1, ← h2, ← h3, ← h4, ← h5]
   by_cases c1 : a.requestInfoOK = true
-  swap
+  · by_cases c2 : a.hostIsIP = true
+    · simp only [c1, c2, Bool.not_true, Bool.false_eq_true, if_false, if_true]
+      by_cases c5 : a.authOK = true
+      · simp only [c5, Bool.not_true, Bool.false_eq_true, if_false]
+        exact imp_match _ _ _ _ _ h6
+      · simp [c5]
+    · by_cases c3 : a.clusterKnown = true
+      · by_cases c4 : a.denyAll = true
+        · simp [c1, c2, c3, c4]
+        · by_cases c5 : a.authOK = true
+          · simp only [c1, c2, c3, c4, c5, Bool.not_true, Bool.false_eq_true, if_false]
+            have c2' : a.hostIsIP = false := by simpa using c2
+            have c4' : a.denyAll = false := by simpa using c4
+            have hd : impClass a.imp = 2 → KG.Spec.Forward.tableDispatch a = KG.Spec.Forward.tableDispatch b := by
+              intro hc
+              obtain ⟨e7, e8, e9⟩ := hlate c1 c2' c3 c4' c5 hc
+              unfold KG.Spec.Forward.tableDispatch
+              rw [← e7, ← h10]
+              by_cases d7 : a.policyMatches = true
+              · rw [← e8 d7]
+                by_cases d8 : a.acquireOK = true
+                · rw [← e9 d7 d8]
+                · simp [d7, d8]
+              · simp [d7]
+            cases hia : a.imp <;> cases hib : b.imp <;> simp [impClass, hia, hib] at h6 <;>
+              first
+                | rfl
+                | exact hd (by simp [impClass, hia])
+          · simp [c1, c2, c3, c4, c5]
+      · simp [c1, c2, c3]
   · simp [c1]
-  by_cases c2 : a.hostIsIP = true
-  · simp only [c1, c2, Bool.not_true, Bool.false_eq_true, if_false, if_true]
-    by_cases c5 : a.authOK = true
-    · simp only [c5, Bool.not_true, Bool.false_eq_true, if_false]
-      exact imp_match h6 _ _ _
-    · simp [c5]
-  by_cases c3 : a.clusterKnown = true
-  swap
-  · simp [c1, c2, c3]
-  by_cases c4 : a.denyAll = true
-  · simp [c1, c2, c3, c4]
-  by_cases c5 : a.authOK = true
-  swap
-  · simp [c1, c2, c3, c4, c5]
-  simp only [c1, c2, c3, c4, c5, Bool.not_true, Bool.false_eq_true, if_false]
-  have c2' : a.hostIsIP = false := by simpa using c2
-  have c4' : a.denyAll = false := by simpa using c4
-  cases hia : a.imp <;> cases hib : b.imp <;> simp [impClass, hia, hib] at h6 <;> simp only [] <;>
-    (obtain ⟨e7, e8, e9⟩ := hlate c1 c2' c3 c4' c5 (by simp [impClass, hia])
-     unfold KG.Spec.Forward.tableDispatch
-     rw [← e7, ← h10]
-     by_cases d7 : a.policyMatches = true
-     · rw [← e8 d7]
-       by_cases d8 : a.acquireOK = true
-       · rw [← e9 d7 d8]
-       · simp [d7, d8]
-     · simp [d7])
 
 /-- net/http accepted the header lines -/
 theorem rawValid_of_parse {r : Request} (hp : Model.Identity.parse r.lines ≠ none) : KG.Lemmas.Identity.rawValid r.lines = true := by
@@ -713,6 +724,356 @@ theorem expectId_eq {env : Env} {p : Option Nat} {r : Request} (hv : KG.Lemmas.I
   simp only [hv', Bool.not_true, Bool.false_eq_true, if_false]
   cases authenticate env p r <;> rfl
 
+/-- C01: the policy the model routes under is the first one with a matching rule -/
+theorem route_first {cl : Cluster} {r : Request} {ri : ReqInfo} {u : Model.Identity.Identity} {pk : Model.Match.Picker}
+    (h : route cl r ri u = some pk) : firstPolicy cl ri u = some pk.policy := by
+  unfold route Model.Match.matchAttributes at h
+  unfold firstPolicy policies
+  rw [← KG.Props.C01.c01_first_match]
+  cases hm : Model.Match.matchPolicies (attrsOf ri u) (cl.cfg.policies.map (·.rules)) with
+  | none => rw [hm] at h; cases h
+  | some i =>
+    rw [hm] at h
+    simp only at h
+    cases hp : cl.cfg.policies[i]? with
+    | none => rw [hp] at h; cases h
+    | some p =>
+      rw [hp] at h
+      simp only at h
+      injection h with h
+      rw [← h]
+
+theorem route_none {cl : Cluster} {r : Request} {ri : ReqInfo} {u : Model.Identity.Identity}
+    (h : route cl r ri u = none) : firstPolicy cl ri u = none := by
+  have hno := (KG.Props.C01.c01_match_attributes_none _ _ _ _).1 h
+  unfold firstPolicy policies
+  rw [← KG.Props.C01.c01_first_match, KG.Props.C01.c01_none_iff]
+  intro p hp
+  obtain ⟨q, hq, rfl⟩ := List.mem_map.mp hp
+  exact hno q hq
+
+/-- C03: "present and ready in the endpoint map" is "current server, not disabled in the spec, last report healthy" -/
+theorem ready_iff_eligible {cl : Cluster} (hwf : ClusterWF cl) (n : Str) :
+    (∃ e, Model.Endpoints.load cl.ep.eps n = some e ∧ e.isReady = true) ↔ eligible cl n = true := by
+  obtain ⟨a, hsim, hsrv, _⟩ := hwf
+  have hdom := hsim.dom n
+  unfold eligible
+  constructor
+  · rintro ⟨e, he, hr⟩
+    rw [he] at hdom
+    obtain ⟨hd, _, _, _⟩ := hsim.ep n e he
+    simp only [Model.Endpoints.EP.isReady, Bool.and_eq_true, Bool.not_eq_true'] at hr
+    have h1 : (Model.Endpoints.serverNames cl.cfg.servers).contains n = true := by
+      rw [← hsrv]; simpa [KG.Spec.Endpoints.Abs.inServers] using hdom.symm
+    have h2 : KG.Spec.Endpoints.specDisabled cl.cfg.servers n = false := by rw [← hsrv, ← hd]; exact hr.1
+    have h1' : n ∈ Model.Endpoints.serverNames cl.cfg.servers := by simpa using h1
+    simp [h1', h2, he, hr.2]
+  · intro h
+    simp only [Bool.and_eq_true, Bool.not_eq_true'] at h
+    obtain ⟨⟨h1, h2⟩, h3⟩ := h
+    have hin : a.inServers n = true := by rw [KG.Spec.Endpoints.Abs.inServers, hsrv]; exact h1
+    rw [hin] at hdom
+    cases he : Model.Endpoints.load cl.ep.eps n with
+    | none => rw [he] at hdom; cases hdom
+    | some e =>
+      rw [he] at h3
+      obtain ⟨hd, _, _, _⟩ := hsim.ep n e he
+      refine ⟨e, rfl, ?_⟩
+      rw [hsrv, h2] at hd
+      simp [Model.Endpoints.EP.isReady, hd, h3]
+
+theorem picked_iff (eps : List Model.Endpoints.EP) (lb : List (Model.Endpoints.Key × Nat)) (us : List Str) :
+    (match (Model.Endpoints.pop eps lb us).1 with | .picked _ _ => true | _ => false) = true ↔
+      ∃ n, n ∈ us ∧ ∃ e, Model.Endpoints.load eps n = some e ∧ e.isReady = true := by
+  rcases KG.Lemmas.Endpoints.pop_cases eps lb us with ⟨h1, h2⟩ | ⟨e, he, h1⟩
+  · rw [h1]
+    simp only [Bool.false_eq_true, false_iff]
+    rintro ⟨n, hn, e, hl, hr⟩
+    have : e ∈ Model.Endpoints.readyList eps us := KG.Lemmas.Endpoints.mem_readyList.2 ⟨n, hn, hl, hr⟩
+    rw [h2] at this; cases this
+  · rw [h1]
+    simp only [true_iff]
+    obtain ⟨n, hn, hl, hr⟩ := KG.Lemmas.Endpoints.mem_readyList.1 he
+    exact ⟨n, hn, e, hl, hr⟩
+
+theorem mem_allEndpoints (cl : Cluster) (r : Request) (n : Str) :
+    n ∈ allEndpoints cl r ↔ n ∈ cl.ep.eps.map (·.name) := by
+  unfold allEndpoints
+  simp only
+  split
+  · rename_i hp
+    exact (List.isPerm_iff.mp hp).mem_iff
+  · rfl
+
+/-- C03 through the composition: `Pop` finds an endpoint iff the policy's upstream list (its subset, or the server list)
+    holds an eligible one -/
+theorem popOK_iff {cl : Cluster} (hwf : ClusterWF cl) (r : Request) (p : Model.Match.PolicyCfg) (i : Nat)
+    (hp : cl.cfg.policies[i]? = some p) (lb : List (Model.Endpoints.Key × Nat)) :
+    (match (Model.Endpoints.pop cl.ep.eps lb (if p.upstreamSubset = [] then allEndpoints cl r else p.upstreamSubset)).1 with
+      | .picked _ _ => true | _ => false) = (upstreamsOf cl i).any (eligible cl) := by
+  rw [Bool.eq_iff_iff, picked_iff, List.any_eq_true]
+  unfold upstreamsOf
+  rw [hp]
+  simp only
+  by_cases hs : p.upstreamSubset = []
+  · simp only [hs, if_true]
+    constructor
+    · rintro ⟨n, _, e, hl, hr⟩
+      have hel := (ready_iff_eligible hwf n).1 ⟨e, hl, hr⟩
+      refine ⟨n, ?_, hel⟩
+      rw [KG.Lemmas.Endpoints.mem_dedup]
+      unfold eligible at hel
+      simp only [Bool.and_eq_true] at hel
+      simpa using hel.1.1
+    · rintro ⟨n, _, hel⟩
+      obtain ⟨e, hl, hr⟩ := (ready_iff_eligible hwf n).2 hel
+      refine ⟨n, ?_, e, hl, hr⟩
+      rw [mem_allEndpoints]
+      exact KG.Lemmas.Endpoints.load_isSome_iff.1 (by rw [hl]; rfl)
+  · simp only [hs, if_false]
+    constructor
+    · rintro ⟨n, hn, e, hl, hr⟩
+      exact ⟨n, hn, (ready_iff_eligible hwf n).1 ⟨e, hl, hr⟩⟩
+    · rintro ⟨n, hn, hel⟩
+      obtain ⟨e, hl, hr⟩ := (ready_iff_eligible hwf n).2 hel
+      exact ⟨n, hn, e, hl, hr⟩
+
+theorem impClass_two {x : Model.Forward.Imp} (h1 : x ≠ .malformed) (h2 : x ≠ .refused) : impClass x = 2 := by
+  cases x <;> simp [impClass] at h1 h2 ⊢
+
+/-- **the decision table on the specification's flags is the decision table on the model's flags**: the declarative
+    reading of every stage (C02's `expected`, C01's `firstMatchSpec`, C05's `demand` / C06's bucket, C03's eligibility) and
+    the composed model agree on the row — in every state whose limiters are related to the judge's bookkeeping and whose
+    clusters are well-formed -/
+theorem table_spec_eq {env : Env} {s : State} {σ : KG.Spec.LocalLimiter.SState} {r : Request}
+    (hrel : KG.Lemmas.LocalLimiter.Rel s.lim σ) (hwf : ∀ (p : Nat) (cl : Cluster), s.clusters[p]? = some cl → ClusterWF cl)
+    (hp : Model.Identity.parse r.lines ≠ none) :
+    KG.Spec.Forward.table (specScenario env s σ r) = KG.Spec.Forward.table (scenario env s r) := by
+  have hv := rawValid_of_parse hp
+  -- the authentication / impersonation flags
+  have hauth : (specScenario env s σ r).authOK = (scenario env s r).authOK ∧
+      impClass (specScenario env s σ r).imp = impClass (scenario env s r).imp := by
+    simp only [specScenario, scenario]
+    rw [expectId_eq hv]
+    cases hau : authenticate env (if r.hostIsIP = true then none else Option.map (fun x => x.fst) (resolveCluster s r)) r with
+    | none => simp [impClass]
+    | some u =>
+      simp only [Option.isSome_some]
+      rcases imp_expected (env := env) (p := if r.hostIsIP = true then none else Option.map (fun x => x.fst) (resolveCluster s r)) hv u with
+        ⟨h1, id, _, hex, hn1, hn2⟩ | ⟨himp, hex⟩ | ⟨himp, hex⟩
+      · simp only [hex]
+        refine ⟨by simp, ?_⟩
+        rw [impClass_two hn1 hn2]
+        split <;> rfl
+      · simp only [hex, himp]; simp [impClass, impKind]
+      · simp only [hex, himp]; simp [impClass, impKind]
+  refine table_congr _ _ rfl rfl rfl rfl hauth.1 hauth.2 rfl ?_
+  intro a1 a2 a3 a4 a5 a6
+  -- the dispatcher is reached
+  have b5 : (scenario env s r).authOK = true := by rw [← hauth.1]; exact a5
+  have b6 : (scenario env s r).imp = .none ∨ (scenario env s r).imp = .allowed := by
+    have : impClass (scenario env s r).imp = 2 := by rw [← hauth.2]; exact a6
+    cases hi : (scenario env s r).imp <;> simp [impClass, hi] at this ⊢
+  obtain ⟨bd, hb⟩ := bound_of_scenario (env := env) (s := s) (r := r) a1 a2 a3 a4 b5 b6
+  obtain ⟨hri, hip, hres, hd, hau, h1', himp⟩ := bound_some hb
+  obtain ⟨_, hcl⟩ := resolve_some hres
+  have hcwf := hwf _ _ hcl
+  -- what the specification expects: forward as the context user
+  have hex : expectId env (some bd.p) r = .forward bd.ctxUser := by
+    rw [expectId_eq hv, hau]
+    simp only
+    rcases imp_expected (env := env) (p := some bd.p) hv bd.requestor with ⟨h1, id, hi, hex, _, _⟩ | ⟨hi, _⟩ | ⟨hi, _⟩
+    · rw [himp] at hi; injection hi with _ hi; rw [hex, hi]
+    · rw [himp] at hi; cases hi
+    · rw [himp] at hi; cases hi
+  have hrouted : (specScenario env s σ r).policyMatches = (firstPolicy bd.cl bd.ri bd.ctxUser).isSome ∧
+      (specScenario env s σ r).acquireOK = (match firstPolicy bd.cl bd.ri bd.ctxUser with
+        | some i => admits s σ bd.cl.cfg.name (schemaOf bd.cl i) r.now | none => true) ∧
+      (specScenario env s σ r).popOK = (match firstPolicy bd.cl bd.ri bd.ctxUser with
+        | some i => (upstreamsOf bd.cl i).any (eligible bd.cl) | none => true) := by
+    simp only [specScenario, hri, hres, hip, Bool.false_eq_true, if_false, Option.map_some, hex]
+    cases firstPolicy bd.cl bd.ri bd.ctxUser <;> simp
+  cases hroute : route bd.cl r bd.ri bd.ctxUser with
+  | none =>
+    have hd' : dispatch env s r = .noPolicy bd := by unfold dispatch; simp [hb, hroute]
+    have hf := route_none hroute
+    rw [hf] at hrouted
+    simp only [Option.isSome_none] at hrouted
+    refine ⟨?_, ?_, ?_⟩
+    · rw [hrouted.1, scenario_policy, hd']
+    · intro h; rw [hrouted.1] at h; cases h
+    · intro h; rw [hrouted.1] at h; cases h
+  | some pk =>
+    obtain ⟨acq, hacq⟩ := tryAcquire_never_panics ⟨σ, hrel⟩ bd.cl.cfg.name (schemaNameOf bd.cl pk) r.now
+    have hd' : dispatch env s r = .done ⟨bd, pk, acq,
+        if acq.admitted then Model.Endpoints.pop bd.cl.ep.eps bd.cl.ep.lb pk.upstreams else (.noReady, bd.cl.ep.lb)⟩ := by
+      unfold dispatch; simp [hb, hroute, hacq]
+    have hf := route_first hroute
+    rw [hf] at hrouted
+    simp only [Option.isSome_some] at hrouted
+    obtain ⟨ha, _, _⟩ := tryAcquire_ok hacq
+    have hadm := acquire_demand hrel ha
+    have hadmits : admits s σ bd.cl.cfg.name (schemaOf bd.cl pk.policy) r.now = acq.admitted := by
+      rw [hadm]; rfl
+    refine ⟨?_, ?_, ?_⟩
+    · rw [hrouted.1, scenario_policy, hd']
+    · intro _
+      rw [hrouted.2.1, scenario_acquire, hd']
+      exact hadmits
+    · intro _ hq
+      rw [hrouted.2.1, hadmits] at hq
+      rw [hrouted.2.2, scenario_pop, hd']
+      simp only [hq, if_true]
+      obtain ⟨pol, hpol, _, _, _, hups, _⟩ := KG.Props.C01.c01_match_attributes_some _ _ _ _ _ hroute
+      have hups' : pk.upstreams = (if pol.upstreamSubset = [] then allEndpoints bd.cl r else pol.upstreamSubset) := hups
+      rw [hups']
+      exact (popOK_iff hcwf r pol pk.policy hpol bd.cl.ep.lb).symm
+
 end Judge
+
+/-! ## no slot is leaked by any way out of a complete request -/
+
+/-- the state after `arrive`, with what is known about the limiter's answer -/
+theorem arrive_state_cases (env : Env) (s : State) (r : Request) :
+    ((arrive env s r).1 = s ∧ ∀ f, (arrive env s r).2 ≠ .forwarded f) ∨
+    ∃ x, dispatch env s r = .done x ∧
+      (((arrive env s r).1 = stateAfterDispatch s x ∧ x.acq.admitted = false ∧ ∀ f, (arrive env s r).2 ≠ .forwarded f) ∨
+       ((arrive env s r).1 = stateAfterDispatch s x ∧ x.acq.admitted = true ∧ ∃ f, (arrive env s r).2 = .forwarded f ∧ f.handle = x.acq.handle) ∨
+       ((arrive env s r).1 = finish (stateAfterDispatch s x) x.acq.handle ∧ x.acq.admitted = true ∧ ∀ f, (arrive env s r).2 ≠ .forwarded f)) := by
+  unfold arrive
+  split
+  · split
+    · exact Or.inl ⟨rfl, fun f h => by cases h⟩
+    · split
+      · exact Or.inl ⟨rfl, fun f h => by cases h⟩
+      · exact Or.inl ⟨rfl, fun f h => by cases h⟩
+      · split
+        · rename_i x hx
+          refine Or.inr ⟨x, hx, ?_⟩
+          by_cases ha : x.acq.admitted = true
+          · exact Or.inr (Or.inr ⟨by simp [ha], ha, fun f h => by cases h⟩)
+          · have ha' : x.acq.admitted = false := by simpa using ha
+            exact Or.inl ⟨by simp [ha'], ha', fun f h => by cases h⟩
+        · exact Or.inl ⟨rfl, fun f h => by cases h⟩
+      · rename_i hs
+        split
+        · rename_i x hx
+          have hadm : x.acq.admitted = true := by
+            have := ((KG.Props.C04.c04_forward_iff _).1 hs).2.2.2.2.2.2.2.1
+            rw [scenario_acquire, hx] at this
+            exact this
+          split
+          · split
+            · exact Or.inr ⟨x, hx, Or.inr (Or.inl ⟨rfl, hadm, _, rfl, rfl⟩)⟩
+            · exact Or.inr ⟨x, hx, Or.inr (Or.inr ⟨rfl, hadm, fun f h => by cases h⟩)⟩
+          · exact Or.inl ⟨rfl, fun f h => by cases h⟩
+        · exact Or.inl ⟨rfl, fun f h => by cases h⟩
+  · exact Or.inl ⟨rfl, fun f h => by cases h⟩
+
+/-- one COMPLETE request: the state is untouched, or the limiter refused (nothing to give back), or the slot was taken and
+    given back -/
+theorem serveRequest_state (env : Env) (s : State) (r : Request) :
+    (serveRequest env s r).1 = s ∨
+    ∃ x, dispatch env s r = .done x ∧
+      (((serveRequest env s r).1 = stateAfterDispatch s x ∧ x.acq.admitted = false) ∨
+       ((serveRequest env s r).1 = finish (stateAfterDispatch s x) x.acq.handle ∧ x.acq.admitted = true)) := by
+  unfold serveRequest
+  dsimp only
+  rcases arrive_state_cases env s r with ⟨h1, hnf⟩ | ⟨x, hx, ⟨h1, ha, hnf⟩ | ⟨h1, ha, f, hf, hh⟩ | ⟨h1, ha, hnf⟩⟩
+  · split
+    · rename_i f hf; exact absurd hf (hnf f)
+    · exact Or.inl h1
+  · split
+    · rename_i f hf; exact absurd hf (hnf f)
+    · exact Or.inr ⟨x, hx, Or.inl ⟨h1, ha⟩⟩
+  · split
+    · rename_i f' hf'
+      rw [hf] at hf'
+      injection hf' with hf'
+      subst hf'
+      exact Or.inr ⟨x, hx, Or.inr ⟨by simp only [h1, hh], ha⟩⟩
+    · rename_i hno; exact absurd hf (hno f)
+  · split
+    · rename_i f hf; exact absurd hf (hnf f)
+    · exact Or.inr ⟨x, hx, Or.inr ⟨h1, ha⟩⟩
+
+theorem lookup_setBucket (bs : List (Nat × Model.TokenBucket.Bucket)) (id id' : Nat) (b : Model.TokenBucket.Bucket) :
+    (setBucket bs id b).lookup id' = if id' = id then some b else bs.lookup id' := by
+  induction bs with
+  | nil =>
+    simp only [setBucket, List.lookup]
+    by_cases h : id' = id
+    · simp [h]
+    · have : (id' == id) = false := by simpa using h
+      simp [h, this]
+  | cons x rest ih =>
+    obtain ⟨i, b'⟩ := x
+    simp only [setBucket]
+    by_cases hi : i = id
+    · subst hi
+      simp only [if_true, List.lookup]
+      by_cases h : id' = i
+      · simp [h]
+      · have : (id' == i) = false := by simpa using h
+        simp [h, this]
+    · simp only [hi, if_false, List.lookup]
+      by_cases h : id' = i
+      · subst h
+        have hne : ¬ id' = id := hi
+        simp [hne]
+      · have : (id' == i) = false := by simpa using h
+        simp only [this, ih]
+
+/-- `acquire` appends the arriving request to the limiter's request list -/
+theorem acquire_reqs {w w' : Model.LocalLimiter.World} {c n : Str} {tb b : Bool}
+    (h : Model.LocalLimiter.acquire w c n tb = .ok (w', b)) :
+    ∃ obj, w'.reqs = w.reqs ++ [⟨c, n, obj, b, false⟩] := by
+  unfold Model.LocalLimiter.acquire at h
+  split at h
+  · injection h with h; injection h with h1 h2; subst h1; subst h2; exact ⟨none, rfl⟩
+  · cases h
+  · rename_i id _
+    split at h
+    · cases h
+    · injection h with h; injection h with h1 h2; subst h1; subst h2; exact ⟨some id, rfl⟩
+
+open KG.Spec.LocalLimiter in
+/-- the judge's bookkeeping after "admitted, then finished" is the bookkeeping before, entry by entry -/
+theorem spec_roundtrip (σ : SState) (c n : Str) (hfresh : ∀ e, σ.entries c n = some e → σ.reqs.length ∉ e.inflight) :
+    (specRelease (specAcquire σ c n true) σ.reqs.length).entries = σ.entries := by
+  have hget : ∀ (l : List SReq) (x : SReq), (l ++ [x])[l.length]? = some x := by
+    intro l x; simp
+  unfold specAcquire
+  simp only [not_true_eq_false, or_false]
+  by_cases hn : n = []
+  · subst hn
+    simp only [if_true]
+    unfold specRelease
+    simp only [hget, Bool.false_eq_true, not_false_eq_true, and_self, if_true]
+    cases he : σ.entries c [] with
+    | none => simp
+    | some e =>
+      simp only
+      have := hfresh e he
+      rw [List.erase_of_not_mem this]
+      funext c' n'
+      simp only [SState.setEntry]
+      split
+      · rename_i hcn; rw [hcn.1, hcn.2, he]
+      · rfl
+  · simp only [hn, if_false]
+    cases he : σ.entries c n with
+    | none =>
+      simp only
+      unfold specRelease
+      simp only [hget, Bool.false_eq_true, not_false_eq_true, and_self, if_true, he]
+    | some e =>
+      simp only
+      unfold specRelease
+      simp only [SState.setEntry, hget, Bool.false_eq_true, not_false_eq_true, and_self, if_true, and_self, List.erase_cons_head]
+      funext c' n'
+      split
+      · rename_i hcn; rw [hcn.1, hcn.2, he]
+      · rfl
 
 end KG.Lemmas.Gateway
